@@ -204,7 +204,6 @@ static inline void* fs_make(M& m, unsigned n, unsigned r)
     }                                                                                                                    \
     Q q_##P##_copy_assign_self() /* s = s leaves the value unchanged */                                                  \
     {                                                                                                                    \
-        VF_KNOWN(C03_static_vector_self_copy_assign, NA > 0);                                                            \
         M m; void* p = P##_make(m, NA, 0); k_##P##_copy_assign(p, p); P##_same(p, m, 0); P##_fin(p, 0); END();           \
     }                                                                                                                    \
     Q q_##P##_move_assign_self() { M m; void* p = P##_make(m, NA, 0); k_##P##_move_assign(p, p); P##_valid(p, 0); P##_fin(p, 0); END(); } \
@@ -226,7 +225,7 @@ SET_QUERIES(fs, (void)0, false) // inserting a new key into a full flat_set over
 Q q_fs_insert_hint_r()
 {
     M m; void* p = fs_make(m, NA, 0); PV x = nd_pv(); u64 h = nd_idx(NA); vf_assume(m.n < CAP || m.has(x));
-    split<NA>(h, [&](u64 c) { (void)k_fs_insert_hint_r(p, c, x); }); m.insert(x);
+    (void)k_fs_insert_hint_r(p, h, x); m.insert(x); // the hint is any valid iterator (symbolic)
     fs_same(p, m, 0); fs_fin(p, 0); END();
 }
 Q q_fs_erase_cit()
